@@ -12,8 +12,8 @@ Fixpoint spec_run (K : nat) (s : spec) (d : dd) (h : list (op * list bool)) : op
   match h with
   | [] => Some (s, d)
   | (o, ch) :: h' =>
-      let '(d1, _) := step true K d o ch in
-      match spec_step K s o (image K d1 (nf d1)) with
+      let '(d1, x) := step true K d o ch in
+      match spec_step K s o (ores x, image K d1 (nf d1)) with
       | None => None
       | Some (s1, _, _) => spec_run K s1 d1 h'
       end
@@ -25,7 +25,7 @@ Proof.
   intros K h. induction h as [|[o ch] h IH]; intros d s d' s' HK I R H.
   - inversion H; subst. auto.
   - cbn [spec_run] in H. destruct (step true K d o ch) as [d1 x] eqn:Es.
-    destruct (spec_step K s o (image K d1 (nf d1))) as [[[s1 r] data]|] eqn:Esp; [|discriminate].
+    destruct (spec_step K s o (ores x, image K d1 (nf d1))) as [[[s1 r] data]|] eqn:Esp; [|discriminate].
     destruct (step_sim K d s o ch d1 x s1 r data HK I R Es Esp) as (I1 & R1 & _).
     eapply IH; eauto.
 Qed.
@@ -82,6 +82,92 @@ Proof.
     symmetry. apply D. unfold retained. cbn [s_user s_removed]. now rewrite Hu, Hrm.
 Qed.
 
+(** a read while one chain file cannot be read (every pread on it fails): it either fails, and then nothing
+    but location entries changed (no file, no attribute, no image), or it reports success, and then every
+    unit is the specification's value -- never zeros in place of written data *)
+Theorem read_fault_sound : forall K d s off len i ch, 0 < K -> inv K d -> Rel K d s ->
+  off + len <= nblk d * K ->
+  let '(d1, x) := step true K d (ReadFault off len i) ch in
+  memo d d1 /\ inv K d1 /\ Rel K d1 s /\
+  ((ores x = RErr /\ odata x = []) \/ (ores x = ROk /\ odata x = firstn len (skipn off (live s)))).
+Proof.
+  intros K d s off len i ch HK I R Hin. cbn [step].
+  destruct (Nat.ltb_spec (nblk d * K) (off + len)); [lia|].
+  pose proof (inv_wf _ _ I) as W.
+  pose proof (read_at_fault_memo K d off len i (wf_nf _ _ W) (wf_loc _ _ W)) as M.
+  destruct (read_at_fault K d off len i) as [failed d']. cbn [snd] in M.
+  assert (I' : inv K d') by (eapply inv_memo; eauto).
+  assert (R' : Rel K d' s) by (eapply memo_rel; eauto).
+  destruct failed; (split; [assumption|]; split; [assumption|]; split; [assumption|]).
+  - left. split; reflexivity.
+  - right. split; [reflexivity|]. cbn [odata].
+    pose proof (read_sim K d s off len HK I R Hin) as RS.
+    destruct (read_at K d off len) as [xx d'']. destruct RS as (Hxx & _). exact Hxx.
+Qed.
+
+(** which of the two: fullReadAt fails exactly when one of its blocks is served from the broken file
+    (stated for one fullReadAt call, i.e. for block-aligned requests) *)
+Lemma existsb_map_f : forall A B (f : A -> B) (p : B -> bool) l,
+  existsb p (map f l) = existsb (fun x => p (f x)) l.
+Proof. intros A B f p l. induction l as [|x l IH]; [reflexivity|]. cbn. now rewrite IH. Qed.
+
+Lemma existsb_ext_f : forall A (p q : A -> bool) l, (forall x, p x = q x) -> existsb p l = existsb q l.
+Proof. intros A p q l H. induction l as [|x l IH]; [reflexivity|]. cbn. now rewrite H, IH. Qed.
+
+Lemma loc_ok_probe : forall d b, 1 <= nf d -> loc_ok d -> loc d b <> 0 -> loc d b = probe (fl d) (nf d) b.
+Proof.
+  intros d b Hnf Hok Hne. destruct (Hok b) as [H0|(H1 & H2 & H3)]; [contradiction|].
+  destruct (probe_spec (fl d) (nf d) b Hnf) as (P1 & P2 & P3).
+  destruct (Nat.lt_trichotomy (loc d b) (probe (fl d) (nf d) b)) as [Hlt|[Heq|Hgt]]; [|assumption|].
+  - exfalso. apply P3; [lia|]. apply H2. lia.
+  - exfalso. apply H3; [lia|]. apply P2. lia.
+Qed.
+
+Lemma lookup_target_memo : forall d d' b, 1 <= nf d -> loc_ok d -> memo d d' ->
+  fst (lookup d' b) = fst (lookup d b).
+Proof.
+  intros d d' b Hnf Hok (E1&E2&_&_&_&_&_&E8&_&Hl&Hok'). unfold lookup. rewrite E1, E2, E8.
+  destruct (nblk d <=? b); [reflexivity|]. destruct (nf d =? 1); [reflexivity|].
+  destruct (Hl b) as [H|H].
+  - rewrite H. destruct (loc d b); reflexivity.
+  - rewrite H. destruct (loc d' b) as [|t] eqn:El; [reflexivity|]. cbn [fst].
+    rewrite <- El. rewrite (loc_ok_probe d' b) by (rewrite ?E1; try assumption; rewrite El; discriminate).
+    now rewrite E1, E2.
+Qed.
+
+Lemma fr_loop_iff : forall i cnt d target b, 1 <= nf d -> loc_ok d ->
+  fst (fr_loop d i target cnt b) =
+  hit i target || existsb (fun k => hit i (fst (lookup d (b + k)))) (seq 0 cnt).
+Proof.
+  intros i cnt. induction cnt as [|cnt IH]; intros d target b Hnf Hok; cbn [fr_loop seq existsb].
+  - cbn [fst]. now rewrite orb_false_r.
+  - pose proof (lookup_memo d b Hnf Hok) as HL. rewrite Nat.add_0_r.
+    destruct (lookup d b) as [nt l] eqn:El. cbn [fst].
+    destruct (memo_pre _ _ HL Hnf) as (Hnf1 & Hok1).
+    assert (Hrest : existsb (fun k => hit i (fst (lookup (set_loc d l) (S b + k)))) (seq 0 cnt) =
+                    existsb (fun k => hit i (fst (lookup d (b + k)))) (seq 1 cnt)).
+    { rewrite <- seq_shift, existsb_map_f. apply existsb_ext_f. intros k.
+      rewrite (lookup_target_memo d (set_loc d l) (S b + k) Hnf Hok HL).
+      replace (b + S k) with (S b + k) by lia. reflexivity. }
+    destruct (Nat.eqb_spec nt target) as [->|Hne].
+    + rewrite IH by assumption. rewrite Hrest. destruct (hit i target); reflexivity.
+    + destruct (hit i target) eqn:Eh; [reflexivity|]. cbn [orb].
+      rewrite IH by assumption. now rewrite Hrest.
+Qed.
+
+Theorem full_read_fault_iff : forall d i cnt b, 1 <= nf d -> loc_ok d ->
+  fst (full_read_fault d i cnt b) = existsb (fun k => hit i (fst (lookup d (b + k)))) (seq 0 cnt).
+Proof.
+  intros d i cnt b Hnf Hok. destruct cnt as [|cnt]; [reflexivity|]. cbn [full_read_fault seq existsb].
+  pose proof (lookup_memo d b Hnf Hok) as HL. rewrite Nat.add_0_r.
+  destruct (lookup d b) as [t l] eqn:El. cbn [fst].
+  destruct (memo_pre _ _ HL Hnf) as (Hnf1 & Hok1).
+  rewrite fr_loop_iff by assumption. f_equal.
+  rewrite <- seq_shift, existsb_map_f. apply existsb_ext_f. intros k.
+  rewrite (lookup_target_memo d (set_loc d l) (S b + k) Hnf Hok HL).
+  replace (b + S k) with (S b + k) by lia. reflexivity.
+Qed.
+
 (** ** C06 *)
 (** after any history the specification covers, every retained user-created snapshot reads back
     exactly the image recorded when it was taken ([s_img] is only ever written by [Snap], as a copy of
@@ -105,7 +191,7 @@ Theorem revert_exact : forall K d s name ch e p, 0 < K -> inv K d -> Rel K d s -
 Proof.
   intros K d s name ch e p HK I R Hp Hp0 He Hret Hn0.
   destruct (step true K d (Revert name) ch) as [d1 x] eqn:Es.
-  assert (Hsp : spec_step K s (Revert name) (image K d1 (nf d1)) =
+  assert (Hsp : spec_step K s (Revert name) (ores x, image K d1 (nf d1)) =
                 Some (mkspec (s_img e) (firstn p (snaps s)) (size s), ROk, [])).
   { cbn [spec_step]. unfold classify. destruct (N.eqb_spec name 0); [contradiction|]. rewrite Hp.
     assert (Hpl : p - 1 < length (snaps s)) by (apply nth_error_Some; congruence).
@@ -173,7 +259,7 @@ Qed.
 Theorem delete_refines : forall K d s name ch d1 x s1 r data,
   0 < K -> inv K d -> Rel K d s ->
   step true K d (Delete name) ch = (d1, x) ->
-  spec_step K s (Delete name) (image K d1 (nf d1)) = Some (s1, r, data) ->
+  spec_step K s (Delete name) (ores x, image K d1 (nf d1)) = Some (s1, r, data) ->
   inv K d1 /\ Rel K d1 s1 /\ ores x = r /\ live s1 = live s.
 Proof.
   intros K d s name ch d1 x s1 r data HK I R Hs Hp.
@@ -182,6 +268,70 @@ Proof.
   cbn [spec_step] in Hp. destruct (classify s name) as [| | | |p]; try (inversion Hp; reflexivity).
   destruct (nth_error (snaps s) (p - 2)) as [par|]; [|discriminate]. destruct (retained par); [discriminate|].
   inversion Hp; reflexivity.
+Qed.
+
+(** one pass of the background cleaner's loop body (sync.InternalSnapshotCleaner), whatever the sync agent
+    answers to the merge request: the live image is unchanged, every retained user-created snapshot is still a
+    retained member with the same name and image; when the merge failed, the chain and the files are exactly
+    as before -- the snapshot is still a member (only marked Removed) *)
+Theorem clean_preserves : forall K d c victim fail, inv K d -> c <> 0%N ->
+  let '(d1, r) := clean d (Some c) victim fail in
+  inv K d1 /\ nblk d1 = nblk d /\ image K d1 (nf d1) = image K d (nf d) /\
+  (forall k, 1 <= k < nf d -> usr d k = true -> rmd d k = false ->
+     exists k', 1 <= k' < nf d1 /\ nm d1 k' = nm d k /\ usr d1 k' = true /\ rmd d1 k' = false /\
+                image K d1 k' = image K d k) /\
+  (fail = true -> nf d1 = nf d /\ nm d1 = nm d /\ fl d1 = fl d) /\
+  (r = RErr -> fail = true /\ In victim (candidates d (Some c))).
+Proof.
+  intros K d c victim fail I Nc.
+  pose proof (inv_names _ _ I) as N.
+  assert (Hsame : inv K d /\ nblk d = nblk d /\ image K d (nf d) = image K d (nf d) /\
+    (forall k, 1 <= k < nf d -> usr d k = true -> rmd d k = false ->
+       exists k', 1 <= k' < nf d /\ nm d k' = nm d k /\ usr d k' = true /\ rmd d k' = false /\
+                  image K d k' = image K d k) /\
+    (fail = true -> nf d = nf d /\ nm d = nm d /\ fl d = fl d) /\
+    (ROk = RErr -> fail = true /\ In victim (candidates d (Some c)))).
+  { split; [assumption|]. split; [reflexivity|]. split; [reflexivity|]. split; [|split; [auto|discriminate]].
+    intros k Hk Hu Hr. exists k. auto. }
+  destruct (clean_cases d (Some c) victim fail) as [(Ep & E)|(Ep & HC)]; [rewrite E; exact Hsame|].
+  apply existsb_exists in Ep. destruct Ep as (v' & Hin & Ev). apply N.eqb_eq in Ev. subst v'.
+  destruct (picked_index d c victim N Nc Hin) as (H2 & Hlt & Hn & Hnm & Hv & R1 & R2).
+  destruct HC as [(E & Hc)|(_ & _ & E)]; [exfalso; lia|]. rewrite E.
+  set (i := find_name d victim (nf d)) in *.
+  assert (Im : inv K (mark d i)) by (apply mark_inv; [assumption|lia]).
+  destruct fail.
+  - split; [assumption|]. split; [reflexivity|]. split; [reflexivity|]. split; [|split; [auto|auto]].
+    intros k Hk Hu Hr. exists k. cbn [mark nf nm usr rmd].
+    assert (Hki : k <> i).
+    { intro Eki. subst k. unfold retained_user in R1. rewrite Hu, Hr in R1. discriminate. }
+    rewrite fupd_neq by assumption. repeat split; try lia; auto.
+  - assert (Hpar : usr (mark d i) (i - 1) = true -> rmd (mark d i) (i - 1) = true).
+    { cbn [mark usr rmd]. rewrite fupd_neq by lia. intros Hu. unfold retained_user in R2.
+      rewrite Hu in R2. cbn in R2. now apply negb_false_iff in R2. }
+    set (dm := merged (mark d i) i).
+    assert (Hattr : forall k, nm dm k = (if k <? i then nm d k else nm d (S k)) /\
+                              usr dm k = (if k <? i then usr d k else usr d (S k)) /\
+                              rmd dm k = (if k <? i then rmd (mark d i) k else rmd (mark d i) (S k))).
+    { intros k. unfold dm, merged, remove_index, coalesce_ix, shift_out. cbn [nm usr rmd set_fl mark]. auto. }
+    split; [now apply merged_inv|]. split; [reflexivity|]. split; [|split; [|split; [discriminate|discriminate]]].
+    + apply image_ext2; [reflexivity|]. intros b. change (nf dm) with (nf d - 1). unfold dm.
+      rewrite merged_top_high by (cbn [mark nf]; lia). replace (S (nf d - 1)) with (nf d) by lia. reflexivity.
+    + intros k Hk Hu Hr. change (nf dm) with (nf d - 1).
+      assert (Hki : k <> i).
+      { intro Eki. subst k. unfold retained_user in R1. rewrite Hu, Hr in R1. discriminate. }
+      assert (Hkp : k <> i - 1).
+      { intro Ekp. subst k. unfold retained_user in R2. rewrite Hu, Hr in R2. discriminate. }
+      destruct (Nat.ltb_spec k i) as [Hlt'|Hge].
+      * exists k. destruct (Hattr k) as (F1 & F2 & F3). rewrite F1, F2, F3.
+        destruct (Nat.ltb_spec k i); [|lia]. cbn [mark rmd]. rewrite fupd_neq by lia.
+        repeat split; try lia; try assumption.
+        apply image_ext2; [reflexivity|]. intros b. unfold dm. rewrite merged_top_low by lia. reflexivity.
+      * exists (k - 1). destruct (Hattr (k - 1)) as (F1 & F2 & F3). rewrite F1, F2, F3.
+        destruct (Nat.ltb_spec (k - 1) i); [lia|]. replace (S (k - 1)) with k by lia.
+        cbn [mark rmd]. rewrite fupd_neq by lia.
+        repeat split; try lia; try assumption.
+        apply image_ext2; [reflexivity|]. intros b. unfold dm. rewrite merged_top_high by lia.
+        replace (S (k - 1)) with k by lia. reflexivity.
 Qed.
 
 (** head, latest snapshot and base snapshot are refused by PrepareRemoveDisk and hence by the deletion
